@@ -145,9 +145,11 @@ func (p *Program) VerifyFunc(fc *FuncContract) (res *FuncResult) {
 	ce := &CEnv{x: x, fr: fr, st: fr.entry, old: fr.entry, vars: vars, guard: x.b.True, fc: fc}
 	x.evalLets(ce, fc)
 	fr.lets = ce.lets
+	ce.hypo = true
 	for _, r := range fc.Requires {
 		x.axiom(x.evalBool(ce, r))
 	}
+	ce.hypo = false
 	x.applyUses(ce, fc)
 	// vacuity cover: the preconditions (and type facts) must be satisfiable
 	x.covers = append(x.covers, &Obligation{Name: "cover:requires", Kind: "cover", Guard: x.b.True, Goal: x.b.False, NHyps: len(x.hyps), Text: "preconditions are satisfiable"})
